@@ -81,6 +81,10 @@ func runSolver(ctx context.Context, sp solverSpec, file string, timeoutS, seed i
 }
 
 func solveOne(o *Obligation, cfg solveCfg, idx int) {
+	if o.NotUnsat {
+		solveFirst(o, cfg, idx)
+		return
+	}
 	q := o.Query(cfg.models)
 	o.SMTSize = len(q)
 	file := filepath.Join(cfg.scratch, fmt.Sprintf("q%05d.smt2", idx))
@@ -223,6 +227,16 @@ func solveFirst(o *Obligation, cfg solveCfg, idx int) {
 	t0 := time.Now()
 	st, out, _ := runSolver(context.Background(), solvers[0], file, cfg.firstS, cfg.seed)
 	o.TimeS = time.Since(t0).Seconds()
+	if o.NotUnsat {
+		// the axioms of the libraries must not be refutable; reported in the usual polarity
+		o.Solver = solvers[0].name
+		if st == "unsat" {
+			o.Status, o.Output = "sat", "the axioms and lemmas of the library are contradictory"
+		} else {
+			o.Status, o.Output = "unsat", "no contradiction found within the time limit ("+st+")"
+		}
+		return
+	}
 	if st == "sat" || st == "unsat" {
 		o.Status, o.Solver, o.Output = st, solvers[0].name, out
 	} else {
